@@ -73,6 +73,7 @@ ProfileDef(p) ==
       \* same-instant streams: every event may share the instant of the previous one
       [] p = "frozen3"    -> B(3, 0, 0, 2, 1, 1, FALSE, "free", 0)   \* all events at one instant
       [] p = "frozenrid"  -> B(2, 1, 2, 1, 0, 2, TRUE, "free", 0)
+      [] p = "frozenridq" -> B(2, 1, 1, 1, 0, 2, FALSE, "free", 0)   \* two tasks with a tag and a milestone, one instant
       [] p = "same2"      -> B(2, 0, 0, 1, 1, 1, FALSE, "free", 2)   \* times 0..2, any coincidences
       [] p = "same2w2"    -> B(2, 0, 0, 2, 0, 1, FALSE, "free", 1)
       [] p = "same3"      -> B(3, 0, 0, 1, 0, 1, FALSE, "free", 1)
